@@ -451,3 +451,15 @@ func Test39PipedIntoVariadicOnly(t *testing.T) {
 	})
 	wantOut(t, one(`{{ "a" | join }}|{{ "a" | join: "b", "c" }}|{{ join("a", "b") }}|{{ 1 | sum: 2, 3 }}|{{ 4 | sum }}`, v, nil), "a|a+b+c|a+b|6|4")
 }
+
+func Test40StrayAmpersand(t *testing.T) {
+	for _, src := range []string{"{{ a&.B }}", "{{ .A&.B.C }}", "{{ a & b }}", "{{ x &y }}"} {
+		r := one(src, nil, nil)
+		if r.pan != nil || r.err == nil || !strings.HasPrefix(r.err.Error(), "PARSE:") {
+			t.Errorf("%q: %s", src, r)
+		}
+	}
+	v := jet.VarMap{}
+	v.Set("a", true).Set("b", false)
+	wantOut(t, one("{{ a && b }}|{{ a&&b }}", v, nil), "false|false")
+}
